@@ -22,6 +22,7 @@ import (
 	"github.com/gcash/bchd/wire"
 	"github.com/gcash/bchutil/merkleblock"
 
+	"verif/harness/cmd/c12/plainrun"
 	"verif/harness/cmd/c12/pmtref"
 	"verif/harness/internal/vh"
 )
@@ -30,6 +31,14 @@ var cfg vh.Config
 var rep *vh.Report
 var cases *vh.Cases
 var maxTxn uint32
+
+// refLimit is the limit the property states, wire.MaxBlockPayload()/61, computed here (not read from the
+// package variable): the reference evaluation of every monitor uses it, the Coq cases get the run-time
+// value of the variable (maxTxn), so a changed variable shows on the implementation side with a message.
+var refLimit uint32
+
+// assumedLimit is the value the theorems' side conditions were checked for (checks.d: MaxTxnCount = 2098360).
+const assumedLimit = 2098360
 
 // named hashes (printed by name in the cases files; defined in the preamble)
 var named = map[pmtref.Hash]string{}
@@ -73,6 +82,8 @@ type implOut struct {
 	Items   []uint32
 	Matches []pmtref.Hash
 	Nanos   int64
+	pb      *merkleblock.PartialBlock // kept to be read again after later extractions
+	rootPtr *chainhash.Hash
 }
 
 func runImpl(count uint32, hashes []pmtref.Hash, flags []byte) (o implOut) {
@@ -92,6 +103,7 @@ func runImpl(count uint32, hashes []pmtref.Hash, flags []byte) (o implOut) {
 	pb := merkleblock.NewMerkleBlockFromMsg(msg)
 	root := pb.ExtractMatches()
 	o.Nanos = time.Since(t0).Nanoseconds()
+	o.pb, o.rootPtr = pb, root
 	o.Bad = pb.BadTree()
 	o.Mutated = flagSum(flags) != before || msg.Transactions != count || len(msg.Hashes) != len(hashes) || len(msg.Flags) != len(flags)
 	for i := range ptrs {
@@ -135,6 +147,66 @@ type sink struct {
 	evals, accepted int
 	hist            map[string]int
 	viol            []vh.Violation
+	// accepted PartialBlocks kept alive: the first two of this sink for good, the last three in a ring;
+	// all are read again after every later extraction of the same sink (= on the same goroutine) and
+	// once more by the goroutine that merges the sink
+	pinned, ring []keptPB
+}
+
+type keptPB struct {
+	count  uint32
+	hashes []pmtref.Hash
+	flags  []byte
+	o      implOut // what was read right after ExtractMatches (copies), and the PartialBlock itself
+}
+
+// readAgain reads the results of a kept PartialBlock now.
+func (k keptPB) readAgain() (o implOut) {
+	o.OK, o.Bad = true, k.o.pb.BadTree()
+	if k.o.rootPtr != nil {
+		o.Root = pmtref.Hash(*k.o.rootPtr)
+	}
+	o.Items = append(o.Items, k.o.pb.GetItems()...)
+	for _, m := range k.o.pb.GetMatches() {
+		if m == nil {
+			o.Matches = append(o.Matches, pmtref.Hash{})
+		} else {
+			o.Matches = append(o.Matches, pmtref.Hash(*m))
+		}
+	}
+	return
+}
+
+// recheck reads every kept PartialBlock again; (count, hashes, flags) is the message extracted last.
+func (s *sink) recheck(count uint32, hashes []pmtref.Hash, flags []byte, where string) {
+	for _, set := range [][]keptPB{s.pinned, s.ring} {
+		for _, k := range set {
+			now := k.readAgain()
+			if sameOut(now, k.o) {
+				continue
+			}
+			rp := replayOf(k.count, k.hashes, k.flags, k.o, pmtref.Evaluate(k.count, k.hashes, k.flags, refLimit))
+			rp["other_count"], rp["other_hashes"], rp["other_flags"] = count, hexHashes(hashes), hex.EncodeToString(flags)
+			rp["items_now"], rp["matches_now"], rp["root_now"], rp["bad_tree_now"] = now.Items, hexHashes(now.Matches), hex.EncodeToString(now.Root[:]), now.Bad
+			rp["note"] = "this message was extracted and its results read (impl_items, impl_matches); then the other message was extracted (" + where + "); then GetItems()/GetMatches()/BadTree()/the returned root of THIS PartialBlock were read again"
+			s.violate("C12:stable:matches", "the results of a PartialBlock extracted earlier (GetItems/GetMatches/root/BadTree) changed after a later extraction", rp)
+		}
+	}
+}
+
+func (s *sink) keep(count uint32, hashes []pmtref.Hash, flags []byte, o implOut) {
+	if !o.OK || o.pb == nil || len(o.Items) == 0 || len(o.Items) > 256 {
+		return
+	}
+	k := keptPB{count, append([]pmtref.Hash(nil), hashes...), append([]byte(nil), flags...), o}
+	if len(s.pinned) < 2 {
+		s.pinned = append(s.pinned, k)
+		return
+	}
+	s.ring = append(s.ring, k)
+	if len(s.ring) > 3 {
+		s.ring = s.ring[1:]
+	}
 }
 
 func newSink() *sink { return &sink{hist: map[string]int{}} }
@@ -181,8 +253,10 @@ func replayOf(count uint32, hashes []pmtref.Hash, flags []byte, o implOut, r pmt
 // monitor evaluates the property on one message; returns the implementation's and the reference's results.
 func monitor(s *sink, count uint32, hashes []pmtref.Hash, flags []byte) (implOut, pmtref.Result) {
 	o := runImpl(count, hashes, flags)
-	r := pmtref.Evaluate(count, hashes, flags, maxTxn)
+	r := pmtref.Evaluate(count, hashes, flags, refLimit)
 	s.evals++
+	s.recheck(count, hashes, flags, "same goroutine")
+	defer func() { s.keep(count, hashes, flags, o) }()
 	if r.OK {
 		s.accepted++
 		s.hist["ext:accepted"]++
@@ -268,13 +342,21 @@ func interleave(s *sink, a, b rawMsg) {
 		}
 		return wire.MsgMerkleBlock{Transactions: m.count, Hashes: ptrs, Flags: append([]byte(nil), m.flags...)}
 	}
-	get := func(pb *merkleblock.PartialBlock) (o implOut) {
+	// extraction and reading are separate steps: A is extracted and read, B is extracted and read, and then
+	// A is read AGAIN (results that live in storage shared between PartialBlocks, in the package or per
+	// goroutine, are intact right after their own extraction and gone after the next one)
+	ext := func(pb *merkleblock.PartialBlock) (root *chainhash.Hash, panicked string) {
 		defer func() {
 			if e := recover(); e != nil {
-				o.Panic = fmt.Sprint(e)
+				panicked = fmt.Sprint(e)
 			}
 		}()
-		root := pb.ExtractMatches()
+		return pb.ExtractMatches(), ""
+	}
+	read := func(pb *merkleblock.PartialBlock, root *chainhash.Hash, panicked string) (o implOut) {
+		if o.Panic = panicked; panicked != "" {
+			return
+		}
 		o.Bad = pb.BadTree()
 		if root != nil {
 			o.OK = true
@@ -290,27 +372,175 @@ func interleave(s *sink, a, b rawMsg) {
 	if p, _ := vh.Catch(func() { pa = merkleblock.NewMerkleBlockFromMsg(mk(a)); pb2 = merkleblock.NewMerkleBlockFromMsg(mk(b)) }); p {
 		return // panics are reported by the isolated runs
 	}
-	oa := get(pa)
-	ob := get(pb2)
+	ra, pnA := ext(pa)
+	oa := read(pa, ra, pnA)
+	rb, pnB := ext(pb2)
+	ob := read(pb2, rb, pnB)
+	oa2 := read(pa, ra, pnA)
 	s.evals += 2
 	s.hist["interleaved"] += 2
-	for i, pair := range [][2]implOut{{oa, a.o}, {ob, b.o}} {
+	for i, pair := range [][2]implOut{{oa, a.o}, {ob, b.o}, {oa2, a.o}} {
 		if pair[1].Panic == "" && !sameOut(pair[0], pair[1]) {
 			m := a
 			other := b
 			if i == 1 {
 				m, other = b, a
 			}
-			rp := replayOf(m.count, m.hashes, m.flags, pair[0], pmtref.Evaluate(m.count, m.hashes, m.flags, maxTxn))
+			rp := replayOf(m.count, m.hashes, m.flags, pair[0], pmtref.Evaluate(m.count, m.hashes, m.flags, refLimit))
 			rp["other_count"] = other.count
 			rp["other_hashes"] = hexHashes(other.hashes)
 			rp["other_flags"] = hex.EncodeToString(other.flags)
 			rp["alone_accepted"] = pair[1].OK
 			rp["alone_bad_tree"] = pair[1].Bad
+			rp["alone_items"] = pair[1].Items
 			rp["note"] = "both PartialBlocks are created (this message first when it is the first of the pair) before either is extracted"
-			s.violate("C12:isolation", "ExtractMatches returns something else when another PartialBlock exists than it returns on its own", rp)
+			if i == 2 {
+				rp["note"] = "both PartialBlocks are created, this one is extracted, the other one is extracted, then the results of this one are read"
+			}
+			s.violate("C12:isolation", "ExtractMatches / GetItems / GetMatches give something else when another PartialBlock exists (or was extracted in between) than on their own", rp)
 		}
 	}
+}
+
+// ---------- PartialBlocks handed from goroutine to goroutine, and extracted by many goroutines at once ----------
+// (a) relay: K PartialBlocks are created by one goroutine, extracted (one after the other) by a second, and
+// read by a third after all extractions; (b) crowd: W goroutines extract the same K messages at the same
+// time (each its own PartialBlocks), read at once and read again when all of them are done, and the
+// main goroutine reads everything once more.  Everything must be what the message gives on its own.
+func goroutineFamily(r *vh.RNG, K, W int) {
+	t0 := time.Now()
+	defer func() { rep.Extra["goroutine_family_seconds"] = time.Since(t0).Seconds() }()
+	type item struct {
+		m     rawMsg
+		pb    *merkleblock.PartialBlock
+		root  *chainhash.Hash
+		panic string
+	}
+	var msgs []rawMsg
+	for i := 0; i < K; i++ {
+		n := 1 + r.Intn(40)
+		leaves, sel := honest(r, n, 1+r.Intn(6))
+		t := pmtref.Build(leaves, sel)
+		hs, fl := t.Hashes(nil), pmtref.Pack(t.Flags(nil))
+		if i%7 == 3 && len(fl) > 0 { // some rejected ones in between
+			fl = append([]byte(nil), fl...)
+			fl[0] ^= 1
+		}
+		msgs = append(msgs, rawMsg{uint32(n), hs, fl, runImpl(uint32(n), hs, fl)})
+	}
+	mk := func(m rawMsg) wire.MsgMerkleBlock {
+		ptrs := make([]*chainhash.Hash, len(m.hashes))
+		for i := range m.hashes {
+			h := chainhash.Hash(m.hashes[i])
+			ptrs[i] = &h
+		}
+		return wire.MsgMerkleBlock{Transactions: m.count, Hashes: ptrs, Flags: append([]byte(nil), m.flags...)}
+	}
+	read := func(it *item) (o implOut) {
+		defer func() {
+			if e := recover(); e != nil {
+				o.Panic = fmt.Sprint(e)
+			}
+		}()
+		if o.Panic = it.panic; it.panic != "" {
+			return
+		}
+		o.Bad = it.pb.BadTree()
+		if it.root != nil {
+			o.OK = true
+			o.Root = pmtref.Hash(*it.root)
+			o.Items = append(o.Items, it.pb.GetItems()...)
+			for _, m := range it.pb.GetMatches() {
+				o.Matches = append(o.Matches, pmtref.Hash(*m))
+			}
+		}
+		return
+	}
+	extract := func(it *item) {
+		defer func() {
+			if e := recover(); e != nil {
+				it.panic = fmt.Sprint(e)
+			}
+		}()
+		it.root = it.pb.ExtractMatches()
+	}
+	compare := func(s *sink, its []*item, how string) {
+		for i, it := range its {
+			if o := read(it); it.m.o.Panic == "" && !sameOut(o, it.m.o) {
+				rp := replayOf(it.m.count, it.m.hashes, it.m.flags, o, pmtref.Evaluate(it.m.count, it.m.hashes, it.m.flags, refLimit))
+				rp["alone_accepted"], rp["alone_items"], rp["goroutines"] = it.m.o.OK, it.m.o.Items, how
+				if len(its) > 1 {
+					other := its[(i+1)%len(its)].m
+					rp["other_count"], rp["other_hashes"], rp["other_flags"] = other.count, hexHashes(other.hashes), hex.EncodeToString(other.flags)
+				}
+				s.violate("C12:isolation:goroutines", "a PartialBlock gives something else than on its own when PartialBlocks are created / extracted / read by different goroutines", rp)
+			}
+		}
+	}
+	// (a) relay
+	s := newSink()
+	its := make([]*item, len(msgs))
+	done := make(chan bool)
+	go func() {
+		for i, m := range msgs {
+			its[i] = &item{m: m}
+			if p, msg := vh.Catch(func() { its[i].pb = merkleblock.NewMerkleBlockFromMsg(mk(m)) }); p {
+				its[i].panic = msg
+			}
+		}
+		done <- true
+	}()
+	<-done
+	go func() {
+		for _, it := range its {
+			if it.panic == "" {
+				extract(it)
+			}
+		}
+		done <- true
+	}()
+	<-done
+	go func() { compare(s, its, "relay: created by goroutine 1, extracted by goroutine 2, read by goroutine 3"); done <- true }()
+	<-done
+	compare(s, its, "relay: read by the main goroutine")
+	s.evals += len(its)
+	s.hist["goroutines:relay"] += len(its)
+	// (b) crowd
+	sinks := make([]*sink, W)
+	all := make([][]*item, W)
+	var wg sync.WaitGroup
+	start := make(chan bool)
+	for w := 0; w < W; w++ {
+		sinks[w] = newSink()
+		wg.Add(1)
+		go func(w int) {
+			defer wg.Done()
+			<-start
+			for round := 0; round < 3; round++ {
+				for i := range msgs {
+					m := msgs[(i+w*5+round)%len(msgs)]
+					it := &item{m: m}
+					if p, msg := vh.Catch(func() { it.pb = merkleblock.NewMerkleBlockFromMsg(mk(m)) }); p {
+						it.panic = msg
+					} else {
+						extract(it)
+					}
+					compare(sinks[w], []*item{it}, "crowd: read right after extraction")
+					all[w] = append(all[w], it)
+				}
+			}
+			compare(sinks[w], all[w], "crowd: read by the extracting goroutine after its last extraction")
+		}(w)
+	}
+	close(start)
+	wg.Wait()
+	for w := 0; w < W; w++ {
+		compare(sinks[w], all[w], "crowd: read by the main goroutine after all goroutines finished")
+		sinks[w].evals += len(all[w])
+		sinks[w].hist["goroutines:crowd"] += len(all[w])
+		mergeSink(sinks[w], "goroutines")
+	}
+	mergeSink(s, "goroutines")
 }
 
 // ---------- correspondence ----------
@@ -546,6 +776,9 @@ func exhaustive(name string, alphabet []pmtref.Hash, maxCount uint32, maxHashes 
 var nontrivialSeen = map[string]bool{}
 
 func mergeSink(s *sink, family string) {
+	// the PartialBlocks this sink kept alive were extracted by the goroutine that filled the sink; they are
+	// read once more here, by the merging goroutine, after every other goroutine of the family has finished
+	s.recheck(0, nil, nil, "read again by another goroutine after all goroutines of the family finished")
 	rep.Evaluations += s.evals
 	for k, v := range s.hist {
 		rep.Histogram[family+"/"+k] += v
@@ -684,7 +917,11 @@ func mutate(r *vh.RNG, count uint32, hashes []pmtref.Hash, flags []byte) []mutan
 		h[i][r.Intn(32)] ^= 1 << uint(r.Intn(8))
 		add("corrupt_hash", count, h, f)
 	}
-	for _, c := range []uint32{0, count - 1, count + 1, count * 2, count*2 + 1, maxTxn, maxTxn + 1, 0xffffffff} {
+	counts := []uint32{0, count - 1, count + 1, count * 2, count*2 + 1, refLimit, refLimit + 1, 0xffffffff}
+	if maxTxn != refLimit {
+		counts = append(counts, maxTxn, maxTxn+1)
+	}
+	for _, c := range counts {
 		if c != count {
 			h, f = cp()
 			add("alter_count", c, h, f)
@@ -1123,6 +1360,13 @@ func edgeCases(r *vh.RNG) {
 	run("count_2^31", 1<<31, []pmtref.Hash{A}, []byte{0}, true)
 	// deep left spine at the maximal count: all ones
 	run("max_count_all_ones", maxTxn, []pmtref.Hash{A, B}, []byte{0xff, 0xff, 0xff}, true)
+	// acceptance right at the limit the property states (the formula, whatever the variable says), and far above
+	for _, c := range []uint32{refLimit - 1, refLimit, refLimit + 1, refLimit + 2, 2 * refLimit, 3000000, 61 * refLimit, wire.MaxBlockPayload() - 1, wire.MaxBlockPayload(), wire.MaxBlockPayload() + 1, 100000000, assumedLimit, assumedLimit + 1} {
+		run("limit_probe", c, []pmtref.Hash{A}, []byte{0}, false)
+		run("limit_probe", c, []pmtref.Hash{A}, []byte{1}, false)
+		run("limit_probe", c, []pmtref.Hash{A, B}, []byte{0xff, 0xff, 0xff}, false)
+	}
+	nilVariants(s, A, B)
 	// big flag strings: bounded time
 	for _, n := range []int{1 << 10, 1 << 16, 1 << 20} {
 		fl := r.Bytes(n)
@@ -1133,6 +1377,113 @@ func edgeCases(r *vh.RNG) {
 		run("big_ones_flags", maxTxn, []pmtref.Hash{A, B, A}, fl, false)
 	}
 	mergeSink(s, "edge")
+}
+
+// nilVariants: a message field that is a nil slice must be treated like the empty slice (the model
+// cannot tell them apart, so the implementation must not): Hashes nil / empty, Flags nil / empty.
+func nilVariants(s *sink, A, B pmtref.Hash) {
+	type res struct {
+		Panic   string
+		OK, Bad bool
+		N       int
+	}
+	run := func(m wire.MsgMerkleBlock) (o res) {
+		defer func() {
+			if e := recover(); e != nil {
+				o.Panic = fmt.Sprint(e)
+			}
+		}()
+		pb := merkleblock.NewMerkleBlockFromMsg(m)
+		o.OK = pb.ExtractMatches() != nil
+		o.Bad, o.N = pb.BadTree(), len(pb.GetItems())+len(pb.GetMatches())
+		return
+	}
+	ha, hb := chainhash.Hash(A), chainhash.Hash(B)
+	for _, count := range []uint32{0, 1, 2, 3, refLimit, refLimit + 1} {
+		for _, hs := range [][]*chainhash.Hash{nil, {&ha}, {&ha, &hb}} {
+			for _, fl := range [][]byte{nil, {0}, {1}, {7}} {
+				var variants []wire.MsgMerkleBlock
+				hv := [][]*chainhash.Hash{hs}
+				if len(hs) == 0 {
+					hv = [][]*chainhash.Hash{nil, {}, make([]*chainhash.Hash, 0, 4)}
+				}
+				fv := [][]byte{fl}
+				if len(fl) == 0 {
+					fv = [][]byte{nil, {}, make([]byte, 0, 4)}
+				}
+				for _, h := range hv {
+					for _, f := range fv {
+						variants = append(variants, wire.MsgMerkleBlock{Transactions: count, Hashes: h, Flags: f})
+					}
+				}
+				if len(variants) < 2 {
+					continue
+				}
+				first := run(variants[0])
+				s.evals++
+				for vi, v := range variants[1:] {
+					s.evals++
+					s.hist["edge:nil_vs_empty"]++
+					if o := run(v); o != first {
+						hx := []pmtref.Hash{}
+						for _, h := range hs {
+							hx = append(hx, pmtref.Hash(*h))
+						}
+						s.violate("C12:nil_vs_empty", "a message with a nil Hashes / Flags slice is treated differently from the same message with an empty slice",
+							map[string]interface{}{"count": count, "hashes": hexHashes(hx), "flags": hex.EncodeToString(fl), "variant": vi + 1,
+								"first_variant": fmt.Sprintf("%+v", first), "this_variant": fmt.Sprintf("%+v", o),
+								"note": "variants of an absent list, in order: nil, empty literal, make(.., 0, 4) (Hashes outer, Flags inner)"})
+					}
+				}
+			}
+		}
+	}
+}
+
+// ---------- the limit ----------
+// checkLimit compares the package variable with the formula of the property and with the value the
+// theorems' side conditions were checked for; called at the start and at the end of the run.
+func checkLimit(when string) {
+	now := merkleblock.MaxTxnCount
+	formula := wire.MaxBlockPayload() / 61
+	if now != formula || now != maxTxn || formula != refLimit {
+		A := pmtref.Hash{1, 2, 3}
+		rp := map[string]interface{}{"when": when, "MaxTxnCount_now": now, "MaxTxnCount_at_start": maxTxn, "MaxBlockPayload": wire.MaxBlockPayload(), "want": formula, "formula_at_start": refLimit}
+		for _, c := range []uint32{formula + 1, 3000000, 100000000} {
+			if o := runImpl(c, []pmtref.Hash{A}, []byte{0}); o.OK {
+				rp["count"], rp["hashes"], rp["flags"], rp["impl_accepted"] = c, hexHashes([]pmtref.Hash{A}), "00", true
+				break
+			}
+		}
+		if o := runImpl(formula, []pmtref.Hash{A}, []byte{0}); !o.OK {
+			rp["count"], rp["hashes"], rp["flags"], rp["impl_accepted"] = formula, hexHashes([]pmtref.Hash{A}), "00", false
+		}
+		rep.Violate("C12:limit:maxtxncount", "merkleblock.MaxTxnCount is not wire.MaxBlockPayload()/61 ("+when+")", rp)
+	}
+	if formula != assumedLimit {
+		rep.Violate("C12:limit:maxblockpayload", "wire.MaxBlockPayload()/61 is not the 2098360 the theorems' side conditions (MaxTxnCount < 2^31, checks.d) were checked for ("+when+")",
+			map[string]interface{}{"MaxBlockPayload": wire.MaxBlockPayload(), "formula": formula, "assumed": assumedLimit})
+	}
+}
+
+// ---------- the build that ships ----------
+// runPlain builds harness/cmd/c12/plain without -tags verif under a neutral module path and merges what it found.
+func runPlain(scale int) {
+	o, err := plainrun.Run(cfg.Out, "C12", cfg.Seed, scale)
+	if err != nil {
+		rep.Extra["plain_build"] = "NOT RUN: " + err.Error()
+		rep.Histogram["plain/not_run"]++
+		return
+	}
+	rep.Extra["plain_build"] = map[string]interface{}{"main_module": o.MainPath, "build_tags": o.Tags, "MaxTxnCount": o.MaxTxnStart, "executions": o.Executions,
+		"build_seconds": o.BuildSecs, "run_seconds": o.RunSecs}
+	rep.Evaluations += o.Executions
+	for k, v := range o.Histogram {
+		rep.Histogram["plain/"+k] += v
+	}
+	for _, v := range o.Violations {
+		rep.Violate(v.Key, v.What+" [build without -tags verif]", v.Replay)
+	}
 }
 
 // ---------- node hash validation ----------
@@ -1166,6 +1517,8 @@ func replay(path string) {
 			OtherCount  *uint32  `json:"other_count"`
 			OtherHashes []string `json:"other_hashes"`
 			OtherFlags  string   `json:"other_flags"`
+			Plain       bool     `json:"plain_build"`
+			When        string   `json:"when"`
 		} `json:"input"`
 	}
 	b, err := os.ReadFile(path)
@@ -1181,9 +1534,16 @@ func replay(path string) {
 		}
 		return hs
 	}
+	if rp.Input.Plain {
+		runPlain(1)
+		return
+	}
 	hs := dec(rp.Input.Hashes)
 	fl, _ := hex.DecodeString(rp.Input.Flags)
 	s := newSink()
+	if rp.Input.OtherCount == nil {
+		nilVariants(s, pmtref.Hash{1}, pmtref.Hash{2})
+	}
 	o, _ := monitor(s, rp.Input.Count, hs, fl)
 	if rp.Input.OtherCount != nil {
 		ohs := dec(rp.Input.OtherHashes)
@@ -1192,6 +1552,7 @@ func replay(path string) {
 		a, b := rawMsg{rp.Input.Count, hs, fl, o}, rawMsg{*rp.Input.OtherCount, ohs, ofl, oo}
 		interleave(s, a, b)
 		interleave(s, b, a)
+		goroutineFamily(vh.NewRNG(cfg.Seed).Fork("goroutines"), 8, 2)
 	}
 	mergeSink(s, "replay")
 }
@@ -1202,14 +1563,14 @@ func main() {
 	rep.Rule = "a message is non-trivial when it passes the four pre-traversal checks (count in 1..MaxTxnCount, hashes <= count, bits >= hashes) so that the tree traversal runs; exhaustive small scopes are counted per message"
 	cases = vh.NewCases(cfg, "Run.Run_C12", 60)
 	maxTxn = merkleblock.MaxTxnCount
+	refLimit = wire.MaxBlockPayload() / 61
 	rng := vh.NewRNG(cfg.Seed)
 	rep.Extra["MaxTxnCount"] = maxTxn
-	if maxTxn != wire.MaxBlockPayload()/61 {
-		rep.Violate("C12:const:max_txn_count", "MaxTxnCount is not MaxBlockPayload()/61", map[string]interface{}{"MaxTxnCount": maxTxn, "MaxBlockPayload": wire.MaxBlockPayload()})
-	}
+	checkLimit("at the start of the run")
 
 	if cfg.Replay != "" {
 		replay(cfg.Replay)
+		checkLimit("at the end of the run")
 		vh.Must(rep.Write(cfg))
 		return
 	}
@@ -1253,6 +1614,8 @@ func main() {
 		mutationStream(rng.Fork("mut"), 4000, 5000, 1<<30, 0, 0)
 		deepFamily(rng.Fork("deep"), 40, 0)
 		manyProblems(rng.Fork("many"), 0)
+		goroutineFamily(rng.Fork("goroutines"), 400, 16)
+		runPlain(8)
 	case cfg.Thorough():
 		// count <= 7, all hash lists over three letters, all flag strings of <= 2 bytes
 		exhaustive("scope{A,B,H(A,A)}", []pmtref.Hash{A, B, AA}, 7, upTo, allBytes, 3, rng.Fork("ex1"))
@@ -1261,6 +1624,8 @@ func main() {
 		mutationStream(rng.Fork("mut"), 3000, 5000, 151, 4, 120)
 		deepFamily(rng.Fork("deep"), 20, 97)
 		manyProblems(rng.Fork("many"), 131)
+		goroutineFamily(rng.Fork("goroutines"), 200, 16)
+		runPlain(4)
 	default:
 		// quick: the same scope with the second flag byte restricted to 8 values (all 2-byte strings in the thorough tier)
 		second := []int{0, 1, 3, 0x15, 0x2a, 0x7f, 0x80, 0xff}
@@ -1269,13 +1634,17 @@ func main() {
 		mutationStream(rng.Fork("mut"), 600, 3000, 67, 4, 100)
 		deepFamily(rng.Fork("deep"), 4, 61)
 		manyProblems(rng.Fork("many"), 211)
+		goroutineFamily(rng.Fork("goroutines"), 60, 8)
+		runPlain(1)
 	}
+	checkLimit("at the end of the run")
 	rep.Extra["exhaustive_and_mutation_seconds"] = time.Since(t0).Seconds()
 	rep.Sample(map[string]interface{}{"family": "edge", "what": "CVE-2012-2459 shapes, count 0 / MaxTxnCount / MaxTxnCount+1 / 2^32-1, megabyte flag strings"}, 4)
 	rep.Sample(map[string]interface{}{"family": "exhaustive", "what": "count <= 7 x hash lists (<= count+1) over {A,B,H(A,A)} x flag strings <= 2 bytes"}, 4)
 	rep.Sample(map[string]interface{}{"family": "skeleton", "what": "every partial-tree shape for n <= 9 (12 in search): honest, padding bits set, 1-2 extra flag bytes, dropped byte/hash, extra hash, equal children forced at every two-child node of every height"}, 4)
 	rep.Sample(map[string]interface{}{"family": "deep", "what": "proofs for 1-3 positions (far left, far right, around 65535/65536, random) of blocks of 65535..MaxTxnCount transactions (heights 16..22): honest, equal children forced at every height on the way down, generic mutations; interleaved: two PartialBlocks created before either is extracted"}, 4)
 	rep.Sample(map[string]interface{}{"family": "many", "what": "k = 1..65537 (131073) adjacent pairs of equal leaves, all descended; all-ones flags with 0/1/2 hashes for every declared count in 1..600 and 32700..32850 (thorough: also around 2^14, 2^16, 2^17): the number of problem events of one traversal crosses 2^8, 2^15, 2^16, 2^17"}, 4)
+	rep.Sample(map[string]interface{}{"family": "kept / goroutines / plain", "what": "accepted PartialBlocks kept alive and read again after every later extraction of the same goroutine and by the merging goroutine; PartialBlocks created, extracted and read by three different goroutines, and extracted by 8-16 goroutines at once; MaxTxnCount against MaxBlockPayload()/61 at start and end, acceptance at the formula limit and limit+1; nil vs empty Hashes/Flags; a second program built without -tags verif in a neutral module (limit, small exhaustive scope, honest proofs + mutations)"}, 8)
 	rep.Sample(map[string]interface{}{"family": "mutation", "what": "honest proofs (reference builder) with bit flips, dropped/duplicated/reordered/corrupted hashes, altered count, truncated/extended flags"}, 4)
 	if !cfg.Search {
 		_, err := cases.Flush()
